@@ -441,6 +441,43 @@ func (w *worker) checkSeq(file string, seq []add) {
 		applyVia("direct-same-path", true, func() string { return src })
 		applyVia("direct-other-path", true, func() string { return other })
 	}
+	// the environment refuses what a strategy needs: a target whose name leaves
+	// no room for a temporary file next to it (NAME_MAX) cannot be replaced by
+	// rename. A patch set that can be written in place still applies; any other
+	// is refused - and a refusal leaves the target exactly as it was.
+	if len(seq) <= 2 {
+		longName := w.path(strings.Repeat("n", 250))
+		clean()
+		if err := os.WriteFile(longName, []byte(file), 0o644); err == nil {
+			f, oerr := os.OpenFile(longName, os.O_RDWR, 0)
+			if oerr == nil {
+				err := signers.ApplyBinPatch(f, longName, bytes.NewReader(dump))
+				f.Close()
+				atomic.AddInt64(&applications, 1)
+				st, serr := os.Stat(longName)
+				switch {
+				case serr != nil:
+					run.Violation("target-gone-after-refused-apply:no-room-for-a-temporary-file", fmt.Sprintf("%s: apply returned %v and the target no longer exists", desc, err), map[string]any{"file": file, "seq": seq})
+				case st.Size() > 1<<20:
+					run.Violation("wrong-size:no-room-for-a-temporary-file", fmt.Sprintf("%s: the target is %d bytes long after apply returned %v", desc, st.Size(), err), map[string]any{"file": file, "seq": seq})
+				default:
+					cur, _ := os.ReadFile(longName)
+					if err != nil {
+						if string(cur) != file {
+							run.Violation("target-modified-by-refused-apply:no-room-for-a-temporary-file", fmt.Sprintf("%s: apply returned %q and the target is now %q", desc, err, cur), map[string]any{"file": file, "seq": seq})
+						} else {
+							run.Outcome("no-room-for-a-temporary-file:refused-untouched")
+						}
+					} else if !expected[string(cur)] {
+						run.Violation("wrong-bytes:no-room-for-a-temporary-file", fmt.Sprintf("%s: got %q", desc, cur), map[string]any{"file": file, "seq": seq})
+					} else {
+						run.Outcome("no-room-for-a-temporary-file:applied-in-place")
+					}
+				}
+			}
+		}
+		os.Remove(longName)
+	}
 	// Dump puts the set in offset order, so after it the object can be applied whatever the Add order was
 	applyVia("direct-other-path-after-dump", true, func() string { return other })
 	// every proper prefix of the dump is rejected; target untouched
